@@ -6,7 +6,7 @@ CFG = {
     "prop_file": "theories/Properties/C08.v",
     "theory_files": ["theories/Base/Bytes.v", "theories/Base/BytesProofs.v", "theories/Base/BytesMore.v",
                      "theories/Formats/PlyRead.v", "theories/Formats/PlyReadSpec.v", "theories/Formats/PlyReadProofs.v", "theories/Formats/PlyReadMesh.v",
-                     "theories/Formats/PlyText.v", "theories/Formats/PlyTextProofs.v"],
+                     "theories/Formats/PlyText.v", "theories/Formats/PlyTextProofs.v", "theories/Formats/PlyReadV2.v"],
     "level_text": "Coq theorems about an executable model of ply.ReadMesh against a reference encoder of the PLY "
                   "specification's grammar: END TO END read_mesh (encode a) = describe a for every abstract file in the "
                   "quantifier (point clouds, tri/quad meshes, meshes with per-corner texture coordinates; any property "
@@ -21,8 +21,13 @@ CFG = {
                   "the harness tokenises the real bytes with its own tokenizer",
     "technique": "Coq proof (induction over property lists, records, header lines, faces; composition to whole files) + vm_compute correspondence check",
     "design_ref": "DESIGN.md §4 C08",
-    "n_quick": 220, "n_thorough": 6000,
-    "rule": "fixed corner files (3 encodings x 8 layouts: alpha before/after/between colour bytes, element face 0, int "
+    "n_quick": 180, "n_thorough": 6000,
+    "rule": "systematic files on every run, independent of the seed (per encoding: every recognised group with its "
+            "members permuted and unrelated properties of other sizes between them; float triples whose outer members "
+            "are 8 bytes apart with the middle one elsewhere; quads and triangles with repeated indices in every "
+            "position, with and without per-corner UVs; lone / partial / type-mixed group members as extra properties; "
+            "alpha before / between / after the colour channels with the same or another type, three spellings; all 256 "
+            "bytes through the uchar (s,t) and a uchar vec3 reader) + fixed corner files (3 encodings x 8 layouts: alpha before/after/between colour bytes, element face 0, int "
             "16777217 + non-float32 double, uchar scalar, quad+triangle with per-corner UVs, no vertices) + random "
             "abstract files through an independent Go reference encoder: 3-14 vertex properties from recognised groups "
             "and unrecognised names, block-wise or fully permuted, type mixes (uchar/int/float/double; odd-typed or "
@@ -32,7 +37,9 @@ CFG = {
             "CRLF, other elements after the faces, ascii/LE/BE; 1/12 cut streams; a small share outside the quantifier "
             "(char/short/ushort/uint, vertex list property, n-gons, unusual count/index types) compared with the model "
             "only; distinct by file bytes; non-trivial = at least one vertex and three properties",
-    "trusted": ["strconv.ParseFloat/ParseInt/FormatFloat and strings.Fields are outside the model: the harness passes "
+    "trusted": ["uchar (s,t) pairs: Go multiplies by 1/255 (vector2.DivByConstant); the implementation's TexCoord values are "
+                "translated through a second 256-entry table (Formats/PlyReadV2.v) before the comparison",
+                "strconv.ParseFloat/ParseInt/FormatFloat and strings.Fields are outside the model: the harness passes "
                 "each ASCII token as the pair (ParseInt result, ParseFloat bits)",
                 "float64(b)/255 is tabulated for the 256 byte values (table checked against Go on every run by the correspondence)"],
     "modelled": ["formats/ply/reader.go ReadHeader + MeshReader.Read, reader_vector1-4.go builders and readers, "
